@@ -576,6 +576,20 @@ func configure(g *gen) {
 	for _, n := range []string{"Header", "IsAjax", "IsGet", "IsPost", "IsMethod", "IsWebSocket", "ContentType"} {
 		add(FnSpec{Recv: "Context", Func: n, Lean: "Ctx." + n, Extra: rqExtra, Types: map[string]T{"[]string": tStrList}, Exts: rqExts})
 	}
+	// the body-form readers: ParseForm / ParseMultipartForm are net/http's (their errors are dropped by rux);
+	// `post req key` = the values of `req.PostForm[key]` after both have run
+	pfExtra := []string{"(post : Option Nat → Bytes → List Bytes)"}
+	add(FnSpec{Recv: "Context", Func: "PostParams", Lean: "Ctx.PostParams", Extra: pfExtra, Types: map[string]T{"[]string": tStrList, "*http.Request": {"opaque", "Option Nat"}},
+		Exts: []Ext{
+			{Callee: "req.ParseForm", Value: "false", T: tBool},
+			{Callee: "req.ParseMultipartForm", Value: "false", T: tBool},
+			{Callee: "defaultMaxMemory", Value: "(0 : Int)", T: tInt},
+			{Callee: "req.PostForm[]", Value: "(post req %1)", T: tStrList},
+		}})
+	add(FnSpec{Recv: "Context", Func: "PostParam", Lean: "Ctx.PostParam", Extra: pfExtra, Types: map[string]T{"[]string": tStrList}, Exts: []Ext{
+		{Callee: "$.PostParams", Values: []string{"(Gen.Ctx.PostParams $ %1 post).1", "(Gen.Ctx.PostParams $ %1 post).2"}, Ts: []T{tStrList, tBool}}}})
+	add(FnSpec{Recv: "Context", Func: "Post", Lean: "Ctx.Post", Extra: pfExtra, Types: map[string]T{"[]string": tStrList}, Exts: []Ext{
+		{Callee: "$.PostParam", Stmts: []string{"let %t ← Gen.Ctx.PostParam $ %1 post"}, Values: []string{"%t.1", "%t.2"}, Ts: []T{tStr, tBool}, MayPanic: true}}})
 	add(FnSpec{Recv: "Context", Func: "SetHandlers", Lean: "Ctx.SetHandlers", Mutates: true,
 		Types: map[string]T{"rux.HandlersChain": {"opaque", "List Unit"}}})
 	// the URL-query readers: `c.Req.URL.Query()` parses the raw query on EVERY call (a parameter: `query req key` = the
